@@ -283,6 +283,30 @@ def judge_run(cfg, seed, fn=None):
                     out.append(("reload_returns_the_file_not_an_earlier_object", f"title={cfg.title!r} thrown_events={cfg.simulation.thrown_events}", f"title={c3.title!r} thrown_events={c3.simulation.thrown_events}"))
             except Exception as ex:
                 out.append(("config_from_fits", "a configuration on the second load", f"{type(ex).__name__}: {str(ex)[:160]}"))
+            # the aftermath of refused loads (a FITS table that is not a results file, a file that does not exist, a text
+            # file): the results file still loads, and to the same configuration
+            try:
+                from astropy.table import Table as _Tb
+
+                foreign = os.path.join(tmp, "foreign.fits")
+                _Tb({"x": np.arange(3.0)}).write(foreign, format="fits", overwrite=True)
+                text = os.path.join(tmp, "notes.fits")
+                open(text, "w").write("not a FITS file\n")
+                for badfn in (foreign, os.path.join(tmp, "missing.fits"), text):
+                    try:
+                        with warnings.catch_warnings():
+                            warnings.simplefilter("ignore")
+                            nc.config_from_fits(badfn)
+                    except Exception:
+                        pass
+                with warnings.catch_warnings():
+                    warnings.simplefilter("ignore")
+                    c4 = nc.config_from_fits(fn)
+                n_items += 1
+                if c4.simulation.thrown_events != cfg.simulation.thrown_events or c4.title != cfg.title or type(c4.simulation.spectrum) is not type(cfg.simulation.spectrum):
+                    out.append(("reload_after_refused_loads", f"title={cfg.title!r} thrown_events={cfg.simulation.thrown_events}", f"title={c4.title!r} thrown_events={c4.simulation.thrown_events}"))
+            except Exception as ex:
+                out.append(("reload_after_refused_loads", "the results file loads after other files were refused", f"{type(ex).__name__}: {str(ex)[:160]}"))
     finally:
         shutil.rmtree(tmp, ignore_errors=True)
     return out, n_items
